@@ -348,3 +348,92 @@ def _sumt(ts):
 
 for _k in ("tri", "quad", "hex"):
     UNITS["layout/%s" % _k] = layout_unit(_k)
+
+
+def layout_tet(ctx):
+    """LAYOUT for tetrahedra (Mode I; nt, nverts, nedges symbolic).  The four corner children of cell k are the columns k + j*nt (j < 4).  The four inner
+    children depend on the diagonal class of the cell (three boolean masks computed from the coordinates); np.nonzero of a mask is a function of the
+    mask, so all blocks selected by one mask share one ascending enumeration f_c and its rank function.
+      CLASSES   for every cell exactly one of the three masks holds (ordering of three real numbers; the coordinates stay symbolic)
+      LOCAL     corner child j of cell k: the parent's vertex j and midpoints of edges OF CELL k only;
+                inner child g of a cell k of class c sits in column 4nt + g*(n1+n2+n3) + offset_c + rank_c(k) and uses midpoints of edges of cell k only
+      NEWNODE   node nverts + e is the midpoint of edge e; old vertices keep number and position
+      SHAPES    8nt columns, given the counting lemma n1 + n2 + n3 == nt for pointwise exclusive and exhaustive masks (assumption, induction on nt)"""
+    import skfem.mesh.mesh_tet_1 as mod
+    from skv import core, sarr
+    from skv import term as tm
+    from skv.sarr import SArr
+    cls = mod.MeshTet1
+    fn = ctx.function(cls._uniform)
+    C = tm.const
+    budget = [0]
+
+    def prove(oid, fn_, goal, **kw):
+        # solver budget under mutation: after two undecided obligations the rest of the unit is reported undecided without calling the solvers
+        if budget[0] >= 2:
+            return ctx.unsupported(oid, fn_, "skipped after two undecided obligations of this unit (solver budget)")
+        r_ = ctx.prove(oid, fn_, goal, **kw)
+        if r_["status"] not in (core.DISCHARGED, core.REFUTED):
+            budget[0] += 1
+        return r_
+    with sarr.index_context() as c:
+        nt, nv, ne = c.size("nt", 1), c.size("nv", 1), c.size("ne", 1)
+
+        class Self:
+            pass
+        me = Self()
+        me.doflocs = me.p = SArr.input("p", (3, nv), tm.REAL)
+        me.t = SArr.input("t", (4, nt), lo=0, hi=nv)
+        me.t2e = SArr.input("t2e", (6, nt), lo=0, hi=ne)
+        me.edges = SArr.input("edges", (2, ne), lo=0, hi=nv)
+        me._boundaries = me._subdomains = None
+        rec = {}
+
+        def replace(obj, **kw):
+            rec.update(kw)
+            return "refined"
+        with sarr.mode_i([mod], extra_globals=dict(replace=replace)):
+            cls._uniform(me)
+        t2, p2 = rec["t"], rec["doflocs"]
+        masks = [o for o, _ in c.nz_cache.values()]
+        if len(masks) != 3:
+            ctx.unsupported("layout/tet", fn, "expected three diagonal-class masks, the run used %d boolean selections" % len(masks))
+            return
+        cnt = [sarr._t(m.shape[0]) for m in masks]
+        truth = [lambda i, m=m: m.nonzero_of[0]._get((i,)) for m in masks]
+        rank = [lambda i, m=m: tm.app(m.nonzero_of[1], tm.INT, i) for m in masks]
+        k = c.skolem("k", 0, nt.t)
+        hy = c.all_hyps()
+        tk = [tr(k.t) for tr in truth]
+        # an ordering fact about three real numbers: only the ground hypotheses are needed, so a counterexample is a model of the real arithmetic
+        prove("layout/tet/classes", fn, tm.and_(tm.or_(*tk), *[tm.not_(tm.and_(tk[a], tk[b])) for a in range(3) for b in range(a + 1, 3)]),
+                  hyps=[h for h in hy if "forall" not in tm.show(h, 10 ** 6)], clause="every cell is in exactly one diagonal class")
+        ctx.assume("counting lemma: boolean masks that are pointwise exclusive and exhaustive on [0, nt) (obligation layout/tet/classes) have counts adding up to nt "
+                   "(induction on nt, not mechanised)")
+        nsum = tm.add(tm.add(cnt[0], cnt[1]), cnt[2])
+        lem = tm.eq(nsum, nt.t)
+        prove("layout/tet/shapes", fn, tm.and_(tm.eq(sarr._t(t2.shape[0]), C(4)), tm.eq(sarr._t(t2.shape[1]), tm.mul(C(8), nt.t)), tm.eq(sarr._t(p2.shape[0]), C(3)),
+                                                   tm.eq(sarr._t(p2.shape[1]), tm.add(nv.t, ne.t))), hyps=hy + [lem], clause="t.shape == (4, 8nt), doflocs.shape == (3, nverts + nedges)")
+        mids = [tm.add(nv.t, me.t2e.get((C(b), k.t))) for b in range(6)]
+        for j in range(4):
+            col = tm.add(tm.mul(C(j), nt.t), k.t)
+            ents = [t2.get((C(r), col)) for r in range(4)]
+            prove("layout/tet/corner%d/local" % j, fn, tm.and_(tm.eq(ents[0], me.t.get((C(j), k.t))), *[tm.or_(*[tm.eq(e, m_) for m_ in mids]) for e in ents[1:]]), hyps=hy,
+                      clause="corner child %d of cell k (column %d*nt + k) = the parent's vertex %d and three midpoints of edges of cell k" % (j, j, j))
+        off = [C(0), cnt[0], tm.add(cnt[0], cnt[1])]
+        for cl in range(3):
+            hyc = hy + [tk[cl]]
+            for g in range(4):
+                col = tm.add(tm.add(tm.mul(C(4), nt.t), tm.mul(C(g), nsum)), tm.add(off[cl], rank[cl](k.t)))
+                ents = [t2.get((C(r), col)) for r in range(4)]
+                prove("layout/tet/inner%d/class%d/local" % (g, cl), fn,
+                          tm.and_(tm.le(tm.mul(C(4), nt.t), col), tm.lt(col, sarr._t(t2.shape[1])), *[tm.or_(*[tm.eq(e, m_) for m_ in mids]) for e in ents]),
+                          hyps=hyc, clause="inner child %d of a cell k of class %d (column 4nt + %d*(n1+n2+n3) + offset + rank(k)) uses midpoints of edges of cell k only" % (g, cl, g))
+        v, e_, i_ = c.skolem("v", 0, nv.t), c.skolem("e", 0, ne.t), c.skolem("i", 0, C(3))
+        hy = c.all_hyps()
+        prove("layout/tet/oldverts", fn, tm.eq(p2.get((i_.t, v.t)), me.doflocs.get((i_.t, v.t))), hyps=hy, clause="doflocs'[:, v] == p[:, v] for v < nverts")
+        mid = tm.div(tm.add(me.doflocs.get((i_.t, me.edges.get((C(0), e_.t)))), me.doflocs.get((i_.t, me.edges.get((C(1), e_.t))))), tm.const(Fraction(2), tm.REAL))
+        prove("layout/tet/newnode/edge", fn, tm.eq(p2.get((i_.t, tm.add(nv.t, e_.t))), mid), hyps=hy, clause="doflocs'[:, nverts + e] == midpoint of edge e")
+
+
+UNITS["layout/tet"] = layout_tet
